@@ -111,6 +111,7 @@ def run(prop):
                 continue
             if r.status == "missing":
                 continue
+            r.features = list(feats) if feats else None
             out["results"].append(r)
             out["crate_of"][name] = crate
     return out
